@@ -475,3 +475,8 @@ Definition to_pos (p : N * N) : nat * nat := (N.to_nat (fst p), N.to_nat (snd p)
 Definition span_chk (c : span_case) : bool :=
   list_Z_eqb (make_span (to_pos (sc_start c)) (to_pos (sc_end c))) (sc_span c) &&
   span_okb (N.to_nat (sc_nlines c)) (sc_span c).
+
+(* both kinds of C23 cases in one list, so that one evaluation serves them *)
+Inductive c23_case := CSpan (c : span_case) | CGapX (c : gcase).
+Definition c23_chk (c : c23_case) : bool :=
+  match c with CSpan s => span_chk s | CGapX g => go_chk g end.
